@@ -6,6 +6,35 @@
 
 package py
 
+import "sync/atomic"
+
+// Number of comparisons of lists, tuples and dicts in progress
+var compareDepth int32
+
+// compareEnter is called before the items of two lists, tuples or
+// dicts are compared, which may compare the same containers again
+// for ever if they contain themselves, overflowing the Go stack.
+//
+// Returns a RuntimeError if too many comparisons are nested,
+// otherwise compareLeave must be called when the comparison is done.
+//
+// CPython counts these in the thread state.  There is no per
+// goroutine storage, so all goroutines are counted together: the
+// error can be early, but only with about a thousand comparisons of
+// containers going on in the same moment.
+func compareEnter() error {
+	if atomic.AddInt32(&compareDepth, 1) > 1000 {
+		atomic.AddInt32(&compareDepth, -1)
+		return ExceptionNewf(RuntimeError, "maximum recursion depth exceeded in comparison")
+	}
+	return nil
+}
+
+// compareLeave undoes compareEnter
+func compareLeave() {
+	atomic.AddInt32(&compareDepth, -1)
+}
+
 // Converts a sequence object v into a Tuple
 func SequenceTuple(v Object) (Tuple, error) {
 	switch x := v.(type) {
